@@ -76,7 +76,43 @@ func hShorterString(fr *Frame, cc *ssa.CallCommon, args []Val, st *State, instr 
 func hSprintf(fr *Frame, cc *ssa.CallCommon, args []Val, st *State, instr ssa.Instruction) (*State, []Val) {
 	// formatting calls String()/Error() methods of the arguments; those are
 	// assumed not to panic (listed in the trusted base).
-	return st, []Val{{T: types.Typ[types.String], L: []Term{fr.ex.freshStr(st, "fmt")}}}
+	r := fr.ex.freshStr(st, "fmt")
+	// fmt.Sprintf("%0"+strconv.Itoa(n)+"s", x): zero/space padded to width n, so
+	// the result has at least n bytes (n >= 0)
+	if len(cc.Args) > 0 {
+		if w, ok := padWidth(cc.Args[0]); ok {
+			n := fr.ex.val(fr, w, st).one()
+			fr.ex.vc.assert(Implies(Ge(n, Int(0)), Ge(slen(r), n)))
+			fr.ex.trusted["extern fmt.Sprintf(\"%0Ns\", x) yields at least N bytes"] = true
+		}
+	}
+	return st, []Val{{T: types.Typ[types.String], L: []Term{r}}}
+}
+
+// padWidth recognises the format "%0" + strconv.Itoa(n) + "s".
+func padWidth(v ssa.Value) (ssa.Value, bool) {
+	outer, ok := v.(*ssa.BinOp)
+	if !ok || outer.Op != token.ADD {
+		return nil, false
+	}
+	if c, ok := outer.Y.(*ssa.Const); !ok || c.Value == nil || constantString(c) != "s" {
+		return nil, false
+	}
+	inner, ok := outer.X.(*ssa.BinOp)
+	if !ok || inner.Op != token.ADD {
+		return nil, false
+	}
+	if c, ok := inner.X.(*ssa.Const); !ok || c.Value == nil || constantString(c) != "%0" {
+		return nil, false
+	}
+	call, ok := inner.Y.(*ssa.Call)
+	if !ok {
+		return nil, false
+	}
+	if f := call.Call.StaticCallee(); f == nil || funcKey(f) != "strconv.Itoa" {
+		return nil, false
+	}
+	return call.Call.Args[0], true
 }
 
 func (fr *Frame) freshErrOrNil(st *State, base string) Val {
